@@ -117,7 +117,8 @@ Proof.
         intros _. split.
         -- apply negb_true_iff, orb_false_iff in Hch. destruct Hch as [H1 _]. apply negb_false_iff, ips_eqb_eq in H1.
            rewrite <- H1. exact HS.
-        -- destruct (skey_eqb _ _); destruct ok; congruence.
+        -- match goal with |- (if ?b then _ else _) <> _ => destruct b end; [congruence|].
+           destruct (skey_eqb _ _); destruct ok; congruence.
       * intros [= <-]. cbn. split; [exact HF1|]. split; [exact HF2|]. split; [auto|]. split; [exact HI|].
         intros _. split; [exact HS|]. split.
         -- intros Hw. rewrite Hw. match goal with |- (if ?b then _ else _) <> _ => destruct b end; [congruence|].
